@@ -591,4 +591,68 @@ example : refineMoment (1/10000000) [[0, 1, 9, 1, 0], [0, 0, 2, 9, 1]] 1 5 [(0, 
 -- coordinate leaves the image
 example : refineMoment (1/10) [[5, -4, 0]] 1 3 [(0, 0)] = .ok [((-40 : Rat) / 11, 0, 1)] := by decide +kernel
 
+
+/-! ## `merge_close_peaks`: which detections reach the linker -/
+
+/-- merging close peaks only removes detections: what is left of a frame is a sub-list of it, in order -/
+theorem merge_close_sublist (d : Rat) (fr : List (Rat × Rat)) : (mergeCloseFrame d fr).Sublist fr :=
+  mergeCloseFrame_sublist d fr
+
+/-- **A peak is discarded only next to a close peak that is at least as bright**: every masked index `k` has another
+    index `k'` of the frame whose coordinate is closer than the minimum distance and whose amplitude is not lower. -/
+theorem merge_close_removed_spec (d : Rat) (fr : List (Rat × Rat)) :
+    ∀ k ∈ mergeCloseRemoved d fr, ∃ k' p q, k' ≠ k ∧ fr[k]? = some p ∧ fr[k']? = some q ∧
+      absRat (q.1 - p.1) < d ∧ p.2 ≤ q.2 := by
+  intro k hk
+  unfold mergeCloseRemoved at hk
+  simp only [List.mem_filterMap] at hk
+  obtain ⟨r, ⟨x, hx, hr⟩, hrk⟩ := hk
+  have hx' := List.mem_zipIdx_iff_getElem?.1 hx
+  rw [List.getElem?_zip_eq_some] at hx'
+  obtain ⟨ha, hb⟩ := hx'
+  rw [List.getElem?_tail] at hb
+  obtain ⟨ka, hka, hfa⟩ := sorted_get fr x.2 x.1.1 ha
+  obtain ⟨kb, hkb, hfb⟩ := sorted_get fr (x.2 + 1) x.1.2 hb
+  have hne : ka ≠ kb := by
+    intro he
+    have hnd : (argsort (fun (a b : Rat) => decide (a ≤ b)) (fr.map (·.1))).Nodup :=
+      (argsort_perm _ _).nodup_iff.2 List.nodup_range
+    have h1 := List.getElem?_eq_some_iff.1 hka
+    have h2 := List.getElem?_eq_some_iff.1 hkb
+    obtain ⟨l1, e1⟩ := h1
+    obtain ⟨l2, e2⟩ := h2
+    have := (List.getElem_inj hnd).1 (e1.trans (he.trans e2.symm))
+    omega
+  split at hr
+  · rename_i hclose
+    injection hr with hr
+    split at hr
+    · rename_i hlow
+      -- the right neighbour is strictly lower: it goes
+      subst hr
+      rw [hkb] at hrk
+      injection hrk with hrk
+      subst hrk
+      refine ⟨ka, x.1.2, x.1.1, hne, hfb, hfa, ?_, hlow.le⟩
+      unfold absRat at hclose ⊢
+      split at hclose <;> split <;> linarith
+    · rename_i hlow
+      subst hr
+      rw [hka] at hrk
+      injection hrk with hrk
+      subst hrk
+      exact ⟨kb, x.1.1, x.1.2, fun h => hne h.symm, hfa, hfb, hclose, not_lt.1 hlow⟩
+  · cases hr
+
+-- three peaks at 1, 2, 5 with amplitudes 3, 7, 4 and minimum distance 2: the dimmer one of the close pair goes
+example : mergeCloseFrame 2 [(1, 3), (2, 7), (5, 4)] = [(2, 7), (5, 4)] := by decide +kernel
+-- one pass only: of three peaks one pixel apart with rising amplitudes the first two go (each is lower than its right neighbour)
+example : mergeCloseFrame 2 [(1, 3), (2, 4), (3, 5)] = [(3, 5)] := by decide +kernel
+-- the frame need not be sorted by coordinate
+example : mergeCloseFrame 2 [(5, 4), (2, 7), (1, 3)] = [(5, 4), (2, 7)] := by decide +kernel
+
+-- `sum_window_spec` needs `c ≥ −½`: below, `int()` truncates toward zero and the window is centred on pixel 0
+-- although the pixel containing the point is −1 (outside the image; no tracked point lies there)
+example : sumWindow [1, 2, 4] 0 (-3/4) (1/2) = 1 := by decide +kernel
+
 end Verif.C08
